@@ -701,18 +701,23 @@ def lean_ref(ref, findings):
     L.append("def floorClasses : Nat := %d\ndef floorPyRows : Nat := %d\ndef floorCRows : Nat := %d\ndef floorCStructs : Nat := %d\n"
              "def floorOptRows : Nat := %d\ndef floorEnumRows : Nat := %d\ndef floorFnOptRows : Nat := %d\n"
              % (fl["classes"], fl["py_rows"], fl["c_rows"], fl["c_structs"], fl["opt_rows"], fl["enum_rows"], fl["fnopt_rows"]))
-    ex_name, ex_shadow = [], []
+    ex_name, ex_shadow, ex_layout = [], [], []
     for e in findings:
         if e.get("status", "known") != "known":
             continue
         for x in e.get("lean_exceptions", []):
             if x["kind"] == "name":
                 ex_name.append("  (%s, %s, %s)" % (lstr(x["struct"]), lstr(x["py"]), lstr(x["c"])))
+            elif x["kind"] == "layout":
+                ex_layout.append("  (%s, %s, %s, %s)" % (lstr(x["struct"]), lstr(x["py"]), lstr(x["c"]), lstr(x["why"])))
             elif x["kind"] == "shadow":
                 ex_shadow.append("  (%s, %s)" % (lstr(x["class"]), lstr(x["field"])))
     L.append("/-- known findings (findings/C18.jsonl, status known): name pairs that are NOT accepted renames but are\n"
              "    tolerated by the `…_partial` theorems: (C structure, Python field, C member at the same offset) -/")
     L.append("def knownNameExceptions : List (String × String × String) := [%s]\n" % ("\n" + ",\n".join(ex_name) + "\n" if ex_name else ""))
+    L.append("/-- known findings: layout disagreements tolerated by the `…_partial` theorems, each only for its category:\n"
+             "    (C structure, Python field, C member at the same position, category) -/")
+    L.append("def knownLayoutExceptions : List Bad := [%s]\n" % ("\n" + ",\n".join(ex_layout) + "\n" if ex_layout else ""))
     L.append("/-- known findings: ctypes fields shadowing a property of the same name: (class, field) -/")
     L.append("def knownShadowExceptions : List (String × String) := [%s]\n" % ("\n" + ",\n".join(ex_shadow) + "\n" if ex_shadow else ""))
     L.append("end RV.Gen.C18\n")
